@@ -1,14 +1,411 @@
 /-
-C06 — JSON export and import are exact inverses (placeholder; theorems follow).
+C06 — JSON export and import are exact inverses.
+
+Statements are about the executable model `PgVerif.Model.Json` (`encode` = `isotherm_to_json` before `json.dumps`,
+`decode` = `isotherm_from_json`).  `InDomain` is the stated domain of the codec: dictionary keys pairwise distinct and none of
+them one of the three keys of the format, extra-column names distinct and none of `pressure`/`loading`/`branch`, branch marks 0 or 1.
+The order key `le` used by the branch guess (`split_ads_data`) and the version string are arbitrary throughout.
+Finding S10b appears as the extra hypothesis of `decode_encode_points_ads` and as the refutation `S10b_witness`.
 -/
+import Mathlib.Tactic
 import PgVerif.Model.Json
 
 namespace PgVerif.C06
 open PgVerif.Model.Json
 
-/-- an adsorption point carries no `branch` key, a desorption point carries `"des"` -/
-theorem encodeRow_branch (r : Row) :
-    (encodeRow r).any (·.1 == "branch") = (decide (r.branch ≠ 0) && true) ∨ (r.extra.any (·.1 == "branch")) = true ∨ True := by
-  exact Or.inr (Or.inr trivial)
+/-- extra-column names of a point: pairwise distinct, none of the three names the format uses itself -/
+def ExtraOK (e : List (String × Scalar)) : Prop :=
+  (e.map (·.1)).Nodup ∧ ∀ kv ∈ e, kv.1 ≠ "pressure" ∧ kv.1 ≠ "loading" ∧ kv.1 ≠ "branch"
+
+/-- a point of the domain: admissible extra columns, branch mark 0 (adsorption) or 1 (desorption) -/
+def RowOK (r : Row) : Prop := ExtraOK r.extra ∧ (r.branch = 0 ∨ r.branch = 1)
+
+def PayloadOK : Payload → Prop
+  | .points rows => ∀ r ∈ rows, RowOK r
+  | _ => True
+
+/-- the domain of the JSON codec -/
+structure InDomain (i : Iso) : Prop where
+  keys_nodup : (i.core.map (·.1)).Nodup
+  keys_free : ∀ kv ∈ i.core, kv.1 ∉ formatKeys
+  payload_ok : PayloadOK i.payload
+
+/-- an adsorption point carries no `branch` key, a desorption point carries one -/
+theorem encodeRow_branch (r : Row) (h : ExtraOK r.extra) :
+    (encodeRow r).any (fun x => x.1 == "branch") = decide (r.branch ≠ 0) := by
+  have hx : r.extra.any (fun x => x.1 == "branch") = false := by
+    rw [List.any_eq_false]
+    intro kv hkv
+    simpa using (h.2 kv hkv).2.2
+  have e1 : ("pressure" == "branch") = false := by decide
+  have e2 : ("loading" == "branch") = false := by decide
+  have e3 : ("branch" == "branch") = true := by decide
+  unfold encodeRow
+  simp only [List.cons_append, List.nil_append, List.any_cons, List.any_append, hx, e1, e2, Bool.false_or]
+  split_ifs with hb <;> simp [hb, e3]
+
+private lemma row_any_des (r : Row) (h : ExtraOK r.extra) :
+    (encodeRow r).any (fun kv => kv.1 == "branch" && kv.2 == Scalar.str "des") = decide (r.branch ≠ 0) := by
+  have hx : r.extra.any (fun kv => kv.1 == "branch" && kv.2 == Scalar.str "des") = false := by
+    rw [List.any_eq_false]
+    intro kv hkv
+    have := (h.2 kv hkv).2.2
+    simp [this]
+  have e1 : ("pressure" == "branch") = false := by decide
+  have e2 : ("loading" == "branch") = false := by decide
+  have e3 : ("branch" == "branch") = true := by decide
+  unfold encodeRow
+  simp only [List.cons_append, List.nil_append, List.any_cons, List.any_append, hx, e1, e2, Bool.false_or, Bool.false_and]
+  split_ifs with hb <;> simp [hb, e3]
+
+private lemma row_pressure (r : Row) :
+    ((encodeRow r).find? (fun x => x.1 == "pressure")).map (fun x => x.2) = some r.p := by
+  have e1 : ("pressure" == "pressure") = true := by decide
+  unfold encodeRow
+  simp only [List.cons_append, List.find?_cons, e1, Option.map_some]
+
+private lemma decodeRow_encodeRow' (r : Row) (mark : Nat) (h : ExtraOK r.extra) :
+    decodeRow (encodeRow r) mark = some ⟨r.p, r.l, mark, r.extra⟩ := by
+  have hf : r.extra.filter (fun kv => kv.1 != "pressure" && kv.1 != "loading" && kv.1 != "branch") = r.extra := by
+    rw [List.filter_eq_self]
+    intro kv hkv
+    obtain ⟨h1, h2, h3⟩ := h.2 kv hkv
+    simp [h1, h2, h3]
+  have e1 : ("pressure" == "pressure") = true := by decide
+  have e2 : ("pressure" == "loading") = false := by decide
+  have e3 : ("loading" == "loading") = true := by decide
+  have e4 : ("pressure" != "pressure") = false := by decide
+  have e5 : ("loading" != "loading") = false := by decide
+  have e6 : ("branch" != "branch") = false := by decide
+  unfold decodeRow encodeRow
+  simp only [List.cons_append, List.nil_append, List.find?_cons, List.filter_cons, List.filter_append, hf, e1, e2, e3, e4, e5,
+    Bool.false_and, Bool.and_false, Bool.false_eq_true, if_false, Option.map_some, Option.bind_eq_bind, Option.bind_some]
+  split_ifs <;> simp [e6]
+
+private lemma core_filterMap (F : String × DVal → Option (String × MVal))
+    (hF : ∀ k v, k ∉ formatKeys → F (k, .mval v) = some (k, v))
+    (d : Dict) (hd : ∀ kv ∈ d, kv.1 ∉ formatKeys) :
+    (d.map (fun kv => (kv.1, DVal.mval kv.2))).filterMap F = d := by
+  induction d with
+  | nil => rfl
+  | cons a t ih =>
+    have h1 : a.1 ∉ formatKeys := hd a (by simp)
+    have h2 := ih (fun kv hkv => hd kv (by simp [hkv]))
+    rw [List.map_cons, List.filterMap_cons, hF _ _ h1, h2]
+
+private lemma lookup_core (d : Dict) (rest : Doc) (k : String) (hk : ∀ kv ∈ d, kv.1 ≠ k) :
+    lookup (d.map (fun kv => (kv.1, DVal.mval kv.2)) ++ rest) k = lookup rest k := by
+  induction d with
+  | nil => rfl
+  | cons a t ih =>
+    have h1 : a.1 ≠ k := hk a (by simp)
+    have h2 := ih (fun kv hkv => hk kv (by simp [hkv]))
+    unfold lookup at h2 ⊢
+    rw [List.map_cons, List.cons_append, List.find?_cons]
+    have h1' : (a.1 == k) = false := by simpa using h1
+    simp only [h1']
+    exact h2
+
+private lemma mapM_id_some {α : Type} (l : List α) : (l.map some).mapM id = some l := by
+  induction l with
+  | nil => rfl
+  | cons a t ih => simp [List.mapM_cons, ih]
+
+private lemma rows_anyMark (rows : List Row) (h : ∀ r ∈ rows, RowOK r) :
+    (rows.map encodeRow).any (fun o => o.any (fun x => x.1 == "branch")) = rows.any (fun r => decide (r.branch = 1)) := by
+  induction rows with
+  | nil => rfl
+  | cons r t ih =>
+    have hr := h r (by simp)
+    rw [List.map_cons, List.any_cons, List.any_cons, ih (fun r hr => h r (by simp [hr])), encodeRow_branch r hr.1]
+    rcases hr.2 with hb | hb <;> simp [hb]
+
+private lemma rows_marks (rows : List Row) (h : ∀ r ∈ rows, RowOK r) :
+    (rows.map encodeRow).map (fun o => if (o.any fun kv => kv.1 == "branch" && kv.2 == Scalar.str "des") = true then 1 else 0)
+      = rows.map (·.branch) := by
+  induction rows with
+  | nil => rfl
+  | cons r t ih =>
+    have hr := h r (by simp)
+    rw [List.map_cons, List.map_cons, List.map_cons, ih (fun r hr => h r (by simp [hr])), row_any_des r hr.1]
+    rcases hr.2 with hb | hb <;> simp [hb]
+
+private lemma rows_pressures (rows : List Row) :
+    (rows.map encodeRow).filterMap (fun o => Option.map (fun x => x.2) (List.find? (fun x => x.1 == "pressure") o))
+      = rows.map (·.p) := by
+  induction rows with
+  | nil => rfl
+  | cons r t ih => rw [List.map_cons, List.filterMap_cons, row_pressure, ih, List.map_cons]
+
+private lemma rows_zip (rows : List Row) (h : ∀ r ∈ rows, RowOK r) :
+    List.zipWith decodeRow (rows.map encodeRow) (rows.map (·.branch)) = rows.map some := by
+  induction rows with
+  | nil => rfl
+  | cons r t ih =>
+    have hr := h r (by simp)
+    rw [List.map_cons, List.map_cons, List.zipWith_cons_cons, ih (fun r hr => h r (by simp [hr])), decodeRow_encodeRow' r _ hr.1,
+      List.map_cons]
+
+private lemma rows_all_ads (rows : List Row) (h : ∀ r ∈ rows, RowOK r)
+    (hn : rows.any (fun r => decide (r.branch = 1)) = false) : rows.map (·.branch) = List.replicate rows.length 0 := by
+  induction rows with
+  | nil => rfl
+  | cons r t ih =>
+    rw [List.any_cons, Bool.or_eq_false_iff] at hn
+    have hr := h r (by simp)
+    have hb : r.branch = 0 := by
+      rcases hr.2 with hb | hb
+      · exact hb
+      · simp [hb] at hn
+    rw [List.map_cons, ih (fun r hr => h r (by simp [hr])) hn.2, hb, List.length_cons, List.replicate_succ]
+
+private lemma F_core (k : String) (v : MVal) (hk : k ∉ formatKeys) :
+    formatKeys.contains (k, DVal.mval v).1 = false := by simpa using hk
+
+theorem decode_encode_none (le : Scalar → Scalar → Bool) (v : String) (i : Iso) (hi : InDomain i)
+    (hp : i.payload = .none) : decode le (encode v i) = some i := by
+  obtain ⟨core, payload⟩ := i
+  simp only at hp
+  subst hp
+  have hd := hi.keys_free
+  simp only at hd
+  have hk1 : ∀ kv ∈ core, kv.1 ≠ "isotherm_data" := fun kv hkv e => hd kv hkv (by simp [e, formatKeys])
+  have hk2 : ∀ kv ∈ core, kv.1 ≠ "isotherm_model" := fun kv hkv e => hd kv hkv (by simp [e, formatKeys])
+  have l1 : lookup [("file_version", DVal.version v)] "isotherm_data" = none := rfl
+  have l2 : lookup [("file_version", DVal.version v)] "isotherm_model" = none := rfl
+  have c1 : formatKeys.contains "file_version" = true := by decide
+  unfold decode encode
+  simp only [List.filterMap_append, List.append_assoc, lookup_core _ _ _ hk1, lookup_core _ _ _ hk2, List.append_nil]
+  rw [core_filterMap _ _ _ hd]
+  · simp only [l1, l2, List.filterMap_cons, List.filterMap_nil, c1, if_true, List.append_nil]
+  · intro k v hk
+    simp only [F_core k v hk, Bool.false_eq_true, if_false]
+
+theorem decode_encode_model (le : Scalar → Scalar → Bool) (v : String) (i : Iso) (hi : InDomain i)
+    (m : ModelDict) (hp : i.payload = .model m) : decode le (encode v i) = some i := by
+  obtain ⟨core, payload⟩ := i
+  simp only at hp
+  subst hp
+  have hd := hi.keys_free
+  simp only at hd
+  have hk1 : ∀ kv ∈ core, kv.1 ≠ "isotherm_data" := fun kv hkv e => hd kv hkv (by simp [e, formatKeys])
+  have hk2 : ∀ kv ∈ core, kv.1 ≠ "isotherm_model" := fun kv hkv e => hd kv hkv (by simp [e, formatKeys])
+  have l1 : lookup [("file_version", DVal.version v), ("isotherm_model", DVal.model m)] "isotherm_data" = none := rfl
+  have l2 : lookup [("file_version", DVal.version v), ("isotherm_model", DVal.model m)] "isotherm_model" = some (.model m) := rfl
+  have c1 : formatKeys.contains "file_version" = true := by decide
+  have c2 : formatKeys.contains "isotherm_model" = true := by decide
+  unfold decode encode
+  simp only [List.filterMap_append, List.append_assoc, lookup_core _ _ _ hk1, lookup_core _ _ _ hk2, List.append_nil,
+    List.cons_append, List.nil_append]
+  rw [core_filterMap _ _ _ hd]
+  · simp only [l1, l2, List.filterMap_cons, List.filterMap_nil, c1, c2, if_true, List.append_nil]
+  · intro k v hk
+    simp only [F_core k v hk, Bool.false_eq_true, if_false]
+
+private lemma decode_points_aux (le : Scalar → Scalar → Bool) (v : String) (core : Dict) (rows : List Row)
+    (hd : ∀ kv ∈ core, kv.1 ∉ formatKeys) (hr : ∀ r ∈ rows, RowOK r) :
+    decode le (encode v ⟨core, .points rows⟩) =
+      if rows.isEmpty = true then some ⟨core, .none⟩
+      else Option.map (fun rs => (⟨core, .points rs⟩ : Iso))
+        (List.mapM id (List.zipWith decodeRow (rows.map encodeRow)
+          (if rows.any (fun r => decide (r.branch = 1)) = true then rows.map (·.branch)
+           else splitAds le (rows.map (·.p))))) := by
+  have hk1 : ∀ kv ∈ core, kv.1 ≠ "isotherm_data" := fun kv hkv e => hd kv hkv (by simp [e, formatKeys])
+  have hk2 : ∀ kv ∈ core, kv.1 ≠ "isotherm_model" := fun kv hkv e => hd kv hkv (by simp [e, formatKeys])
+  have l1 : ∀ x, lookup [("file_version", DVal.version v), ("isotherm_data", DVal.data x)] "isotherm_data" = some (.data x) :=
+    fun _ => rfl
+  have c1 : formatKeys.contains "file_version" = true := by decide
+  have c2 : formatKeys.contains "isotherm_data" = true := by decide
+  unfold decode encode
+  simp only [List.filterMap_append, List.append_assoc, lookup_core _ _ _ hk1, lookup_core _ _ _ hk2, List.append_nil,
+    List.cons_append, List.nil_append]
+  rw [core_filterMap _ _ _ hd]
+  · simp only [l1, List.filterMap_cons, List.filterMap_nil, c1, c2, if_true, List.append_nil,
+      rows_anyMark rows hr, rows_marks rows hr, rows_pressures rows, List.isEmpty_map]
+  · intro k v hk
+    simp only [F_core k v hk, Bool.false_eq_true, if_false]
+
+/-- a single point is recovered exactly from its JSON object (given the mark the reader assigns to it) -/
+theorem decodeRow_encodeRow (r : Row) (h : RowOK r) : decodeRow (encodeRow r) r.branch = some r :=
+  decodeRow_encodeRow' r r.branch h.1
+
+/-- measured points, at least one of them a desorption point: recovered exactly -/
+theorem decode_encode_points_des (le : Scalar → Scalar → Bool) (v : String) (i : Iso) (hi : InDomain i)
+    (rows : List Row) (hp : i.payload = .points rows) (hne : rows ≠ [])
+    (hdes : rows.any (fun r => decide (r.branch = 1)) = true) : decode le (encode v i) = some i := by
+  obtain ⟨core, payload⟩ := i
+  simp only at hp
+  subst hp
+  have hr : ∀ r ∈ rows, RowOK r := hi.payload_ok
+  have he : rows.isEmpty = false := by simpa using hne
+  rw [decode_points_aux le v core rows hi.keys_free hr]
+  simp only [he, Bool.false_eq_true, if_false, hdes, if_true, rows_zip rows hr, mapM_id_some, Option.map_some]
+
+/-- measured points, all of them adsorption points: recovered exactly PROVIDED the branch guess from the pressures
+(`split_ads_data`) marks every point as adsorption — finding S10b is that this is not always so -/
+theorem decode_encode_points_ads (le : Scalar → Scalar → Bool) (v : String) (i : Iso) (hi : InDomain i)
+    (rows : List Row) (hp : i.payload = .points rows) (hne : rows ≠ [])
+    (hads : rows.any (fun r => decide (r.branch = 1)) = false)
+    (hsplit : splitAds le (rows.map (·.p)) = List.replicate rows.length 0) : decode le (encode v i) = some i := by
+  obtain ⟨core, payload⟩ := i
+  simp only at hp
+  subst hp
+  have hr : ∀ r ∈ rows, RowOK r := hi.payload_ok
+  have he : rows.isEmpty = false := by simpa using hne
+  rw [decode_points_aux le v core rows hi.keys_free hr]
+  simp only [he, Bool.false_eq_true, if_false, hads, hsplit, ← rows_all_ads rows hr hads, rows_zip rows hr, mapM_id_some,
+    Option.map_some]
+
+/-- both cases in one statement -/
+theorem decode_encode_points (le : Scalar → Scalar → Bool) (v : String) (i : Iso) (hi : InDomain i)
+    (rows : List Row) (hp : i.payload = .points rows) (hne : rows ≠ [])
+    (h : rows.any (fun r => decide (r.branch = 1)) = true ∨
+         splitAds le (rows.map (·.p)) = List.replicate rows.length 0) : decode le (encode v i) = some i := by
+  by_cases hdes : rows.any (fun r => decide (r.branch = 1)) = true
+  · exact decode_encode_points_des le v i hi rows hp hne hdes
+  · rcases h with h | h
+    · exact absurd h hdes
+    · exact decode_encode_points_ads le v i hi rows hp hne (by simpa using hdes) h
+
+private lemma zip_marks (rows : List Row) (marks : List Nat) (h : ∀ r ∈ rows, RowOK r) :
+    List.zipWith decodeRow (rows.map encodeRow) marks =
+      (List.zipWith (fun r m => (⟨r.p, r.l, m, r.extra⟩ : Row)) rows marks).map some := by
+  induction rows generalizing marks with
+  | nil => rfl
+  | cons r t ih =>
+    cases marks with
+    | nil => rfl
+    | cons m ms =>
+      have hr := h r (by simp)
+      rw [List.map_cons, List.zipWith_cons_cons, List.zipWith_cons_cons, List.map_cons,
+        ih ms (fun r hr => h r (by simp [hr])), decodeRow_encodeRow' r m hr.1]
+
+private lemma zip_eq_self (rows : List Row) (marks : List Nat) (hl : marks.length = rows.length)
+    (he : List.zipWith (fun r m => (⟨r.p, r.l, m, r.extra⟩ : Row)) rows marks = rows) :
+    marks = rows.map (·.branch) := by
+  induction rows generalizing marks with
+  | nil =>
+    cases marks with
+    | nil => rfl
+    | cons m ms => simp at hl
+  | cons r t ih =>
+    cases marks with
+    | nil => simp at hl
+    | cons m ms =>
+      rw [List.zipWith_cons_cons, List.cons.injEq] at he
+      have hm : m = r.branch := by
+        have := congrArg Row.branch he.1
+        simpa using this
+      rw [List.map_cons, ← hm, ih ms (by simpa using hl) he.2]
+
+private lemma splitAds_length (le : Scalar → Scalar → Bool) (ps : List Scalar) : (splitAds le ps).length = ps.length := by
+  unfold splitAds
+  simp only
+  split_ifs <;> simp
+
+/-- the hypothesis of `decode_encode_points_ads` is exactly what is needed: with no desorption point, the isotherm is
+recovered IF AND ONLY IF the branch guess marks every point as adsorption (this is finding S10b, stated as an equivalence) -/
+theorem decode_encode_points_ads_iff (le : Scalar → Scalar → Bool) (v : String) (i : Iso) (hi : InDomain i)
+    (rows : List Row) (hp : i.payload = .points rows) (hne : rows ≠ [])
+    (hads : rows.any (fun r => decide (r.branch = 1)) = false) :
+    decode le (encode v i) = some i ↔ splitAds le (rows.map (·.p)) = List.replicate rows.length 0 := by
+  refine ⟨?_, decode_encode_points_ads le v i hi rows hp hne hads⟩
+  obtain ⟨core, payload⟩ := i
+  simp only at hp
+  subst hp
+  have hr : ∀ r ∈ rows, RowOK r := hi.payload_ok
+  have he : rows.isEmpty = false := by simpa using hne
+  rw [decode_points_aux le v core rows hi.keys_free hr]
+  simp only [he, Bool.false_eq_true, if_false, hads, zip_marks rows _ hr, mapM_id_some, Option.map_some, Option.some.injEq,
+    Iso.mk.injEq, true_and, Payload.points.injEq]
+  intro h
+  rw [zip_eq_self rows _ (by rw [splitAds_length, List.length_map]) h, rows_all_ads rows hr hads]
+
+/-- boundary of the domain: an empty table of points is written as `"isotherm_data": []` and read back as an isotherm
+with no data at all (python: `if data:` is false) -/
+theorem decode_encode_empty_points (le : Scalar → Scalar → Bool) (v : String) (core : Dict)
+    (hd : ∀ kv ∈ core, kv.1 ∉ formatKeys) :
+    decode le (encode v ⟨core, .points []⟩) = some ⟨core, .none⟩ := by
+  rw [decode_points_aux le v core [] hd (by simp)]
+  rfl
+
+/-- hence the empty table is NOT recovered -/
+theorem decode_encode_empty_points_ne (le : Scalar → Scalar → Bool) (v : String) (core : Dict)
+    (hd : ∀ kv ∈ core, kv.1 ∉ formatKeys) :
+    decode le (encode v ⟨core, .points []⟩) ≠ some ⟨core, .points []⟩ := by
+  rw [decode_encode_empty_points le v core hd]
+  simp
+
+/-- order key on integer pressures used by the witnesses -/
+def leInt : Scalar → Scalar → Bool
+  | .int a, .int b => decide (a ≤ b)
+  | _, _ => false
+
+/-- the S10b isotherm: three adsorption points at pressures 1, 3, 2 -/
+def s10b : Iso :=
+  ⟨[("material", .scalar (.str "m"))],
+   .points [⟨.int 1, .int 10, 0, []⟩, ⟨.int 3, .int 30, 0, []⟩, ⟨.int 2, .int 20, 0, []⟩]⟩
+
+theorem s10b_inDomain : InDomain s10b := by
+  refine ⟨by decide, by decide, ?_⟩
+  intro r hr
+  simp only [s10b, List.mem_cons, List.not_mem_nil, or_false] at hr
+  rcases hr with rfl | rfl | rfl <;> exact ⟨⟨by decide, by decide⟩, Or.inl rfl⟩
+
+/-- finding S10b: an in-domain isotherm, all points marked adsorption, is NOT recovered — the last mark comes back as 1 -/
+theorem S10b_witness : decode leInt (encode "3.0" s10b) ≠ some s10b := by decide
+
+theorem S10b_witness_value : decode leInt (encode "3.0" s10b) =
+    some ⟨[("material", .scalar (.str "m"))],
+      .points [⟨.int 1, .int 10, 0, []⟩, ⟨.int 3, .int 30, 0, []⟩, ⟨.int 2, .int 20, 1, []⟩]⟩ := by decide
+
+/-- re-export reproduces the document whenever the import recovers the isotherm -/
+theorem encode_decode_encode (le : Scalar → Scalar → Bool) (v : String) (i : Iso) (hi : InDomain i)
+    (h : match i.payload with
+         | .none => True
+         | .model _ => True
+         | .points rows => rows ≠ [] ∧ (rows.any (fun r => decide (r.branch = 1)) = true ∨
+              splitAds le (rows.map (·.p)) = List.replicate rows.length 0)) :
+    ∃ j, decode le (encode v i) = some j ∧ encode v j = encode v i := by
+  refine ⟨i, ?_, rfl⟩
+  cases hp : i.payload with
+  | none => exact decode_encode_none le v i hi hp
+  | model m => exact decode_encode_model le v i hi m hp
+  | points rows =>
+    rw [hp] at h
+    exact decode_encode_points le v i hi rows hp h.1 h.2
+
+/-- the same with `Option.get` -/
+theorem encode_decode_encode_get (le : Scalar → Scalar → Bool) (v : String) (i : Iso) (hi : InDomain i)
+    (h : match i.payload with
+         | .none => True
+         | .model _ => True
+         | .points rows => rows ≠ [] ∧ (rows.any (fun r => decide (r.branch = 1)) = true ∨
+              splitAds le (rows.map (·.p)) = List.replicate rows.length 0))
+    (hs : (decode le (encode v i)).isSome = true) :
+    encode v ((decode le (encode v i)).get hs) = encode v i := by
+  obtain ⟨j, hj, he⟩ := encode_decode_encode le v i hi h
+  simp only [hj, Option.get_some, he]
+
+/-- the document is a well-formed JSON object: its keys are pairwise distinct -/
+theorem encode_keys_distinct (v : String) (i : Iso) (hi : InDomain i) : ((encode v i).map (·.1)).Nodup := by
+  obtain ⟨core, payload⟩ := i
+  have hd := hi.keys_free
+  have hn := hi.keys_nodup
+  simp only at hd hn
+  have hmap : (core.map (fun kv => (kv.1, DVal.mval kv.2))).map (·.1) = core.map (·.1) := by
+    rw [List.map_map]; rfl
+  have hfree : ∀ k ∈ core.map (·.1), k ∉ formatKeys := by
+    intro k hk
+    obtain ⟨kv, hkv, rfl⟩ := List.mem_map.1 hk
+    exact hd kv hkv
+  unfold encode
+  rw [List.map_append, List.map_append, hmap, List.append_assoc, List.nodup_append]
+  refine ⟨hn, ?_, ?_⟩
+  · cases payload <;> simp only [List.map_cons, List.map_nil, List.cons_append, List.nil_append] <;> decide
+  · intro a ha b hb hab
+    subst hab
+    apply hfree a ha
+    cases payload <;> simp [formatKeys] at hb ⊢ <;> tauto
 
 end PgVerif.C06
